@@ -51,6 +51,9 @@ pub enum Place {
     Start,
     /// start address = 64-aligned + a, mapped memory on both sides
     Align(usize),
+    /// a 4 KiB page boundary of the address space falls k bytes after the start (inside the
+    /// buffer when k < len); mapped memory on both sides
+    Straddle(usize),
 }
 
 impl Arena {
@@ -83,6 +86,7 @@ impl Arena {
                 Place::End => self.data.add(self.data_len - bytes.len()),
                 Place::Start => self.data,
                 Place::Align(a) => self.data.add(64 + (a % 64)),
+                Place::Straddle(k) => self.data.add(2 * PAGE - (k % PAGE)),
             };
             // fill the neighbourhood with bytes that are in every class, so an
             // over-read that stays in mapped memory tends to change the result
@@ -267,7 +271,10 @@ fn run_inner<'b>(entry: u8, cfgbits: u8, buf: &'b [u8], cap: usize) -> Obs {
     match entry {
         E_CFG_REQ | E_REQ_PARSE | E_CFG_REQ_UNINIT | E_REQ_PARSE_UNINIT => {
             let uninit = is_uninit_entry(entry);
-            let mut empty: [httparse::Header<'b>; 0] = [];
+            // for the uninit entry points the value starts out over ANOTHER, non-empty array:
+            // `headers` must be left untouched on a non-Complete result
+            let mut empty: [httparse::Header<'b>; 3] = [sentinel(MAX_SLOTS - 1), sentinel(MAX_SLOTS - 2), sentinel(MAX_SLOTS - 3)];
+            let other_base = empty.as_ptr() as usize;
             let mut req = if uninit {
                 httparse::Request::new(&mut empty[..])
             } else {
@@ -288,14 +295,15 @@ fn run_inner<'b>(entry: u8, cfgbits: u8, buf: &'b [u8], cap: usize) -> Obs {
             o.version = req.version;
             o.exposed = req.headers.iter().map(hsl).collect();
             o.exposed_is_whole = if uninit {
-                req.headers.is_empty()
+                req.headers.as_ptr() as usize == other_base && req.headers.len() == 3
             } else {
                 req.headers.as_ptr() as usize == arr_base + std::mem::size_of::<httparse::Header>() && req.headers.len() == cap
             };
         }
         E_CFG_RESP | E_RESP_PARSE | E_CFG_RESP_UNINIT => {
             let uninit = is_uninit_entry(entry);
-            let mut empty: [httparse::Header<'b>; 0] = [];
+            let mut empty: [httparse::Header<'b>; 3] = [sentinel(MAX_SLOTS - 1), sentinel(MAX_SLOTS - 2), sentinel(MAX_SLOTS - 3)];
+            let other_base = empty.as_ptr() as usize;
             let mut resp = if uninit {
                 httparse::Response::new(&mut empty[..])
             } else {
@@ -315,7 +323,7 @@ fn run_inner<'b>(entry: u8, cfgbits: u8, buf: &'b [u8], cap: usize) -> Obs {
             o.reason = resp.reason.map(|m| Sl::of(m.as_bytes()));
             o.exposed = resp.headers.iter().map(hsl).collect();
             o.exposed_is_whole = if uninit {
-                resp.headers.is_empty()
+                resp.headers.as_ptr() as usize == other_base && resp.headers.len() == 3
             } else {
                 resp.headers.as_ptr() as usize == arr_base + std::mem::size_of::<httparse::Header>() && resp.headers.len() == cap
             };
